@@ -9,6 +9,8 @@ let () = iter_lines (fun line ->
   | "pack" :: h :: _ ->
     print_endline (match pack_bytes (bytes_of_hex h) with Some l -> "ok " ^ hex_of_bytes l | None -> "panic")
   | "unpack" :: h :: _ -> print_endline (show (unpack (bytes_of_hex h)))
+  (* Unpack appends to dst: the appended part is unpack's output whatever dst's spare capacity held *)
+  | "unpackdirty" :: h :: _ -> print_endline (show (unpack (bytes_of_hex h)))
   | "unpack_prefix" :: h :: _ -> print_endline (show (unpack_prefix (bytes_of_hex h)))
   | "spec" :: h :: _ -> print_endline (show (spec_unpack (bytes_of_hex h)))
   (* the streaming reader: by theorem C13_stream_agrees its verdict and output are those of
